@@ -88,6 +88,41 @@ def _oid_lookup_classifier(prog, cp, fam):
     return None
 
 
+def r18_5(prog, rep):
+    """"on any other input the parsers return an error": in the list parser every PEM block counts -- a block whose label is not PUBLIC KEY ends the call with an
+    error. On the mismatch edge of the label comparison no path leads back to the next block (variant-tracked)."""
+    body = one_body(prog, rep, 'R18.5', 'curve25519-parser', exact='parse_openssl_25519_pubkeys_pem_many')
+    if body is None:
+        return
+    rep.fn(body)
+    key = 'R18.5|%s|foreign-pem-block-is-an-error' % body.nkey
+    found = 0
+    bad = []
+    for bd in [body] + prog.closures_of(body):
+        loops = bd.loop_blocks()
+        nexts = [b for b in bd.calls() if b.term.cmethod == 'next' and b.idx in loops]
+        for bl in bd.blocks:
+            r = branch_on_call(prog, bd, bl.idx)
+            if not r or r[1].cmethod not in ('eq', 'ne') or len(r[1].args) != 2:
+                continue
+            if not any((lambda e: e[0] == 'const' and (((e[2] or {}).get('promoted_def') or (e[2] or {}).get('def') or '').endswith('PUBLIC_TAG')))(deref_expr(bd, expr_of(bd, a))) for a in r[1].args):
+                continue
+            found += 1
+            reach = reachable_vs(bd, r[3])      # r[3]: the edge taken when the two are not equal
+            if bd is body and nexts:
+                if any(n.idx in reach for n in nexts):
+                    bad.append(bd.loc(bl.idx))
+            else:
+                # per-block closure of an iterator chain (or no loop): the mismatch edge yields no Ok item
+                if [x for x in _ok_blocks(bd) if x in reach]:
+                    bad.append(bd.loc(bl.idx))
+    if not found:
+        rep.ob('R18.5', False, key, 'anchor: no comparison of a block label with PUBLIC_TAG found', body.loc())
+        return
+    rep.ob('R18.5', not bad, key, 'a block with another label ends the call (no way back to the next block / no Ok item)' if not bad else
+           'a PEM block whose label is not PUBLIC KEY is skipped (%s): a private key or a certificate in the list is silently ignored instead of refused' % ', '.join(bad), body.loc())
+
+
 def r18_4(prog, rep):
     """"on any other input the parsers return an error": a key structure announcing another algorithm (X448, Ed448, ..) is refused. For each DER entry point,
     either no Ok result is reachable in it once the equal-edges of its comparisons with ED_25519_OID and X_25519_OID are cut (both constants being compared),
@@ -132,6 +167,7 @@ def r18_4(prog, rep):
 def run(prog, rep, tier):
     scope, taint, seen, table = c08.run_census(prog, rep, 'c18', 'PANIC18')
     r18_4(prog, rep)     # unknown algorithm identifiers are refused
+    r18_5(prog, rep)     # foreign PEM blocks in a key list are refused
     rep.note('%d panic sites in the key-parser scope' % len(seen))
     # positive control: the parser still has its indexing sites and they are discharged by facts, not by the table
     via_table = [k for k in seen if k in table]
